@@ -1,4 +1,5 @@
 import Bw.Json
+import Bw.Glob
 import Bw.Walk
 import Bw.Lemmas.WalkSim
 open Lean Bw Bw.J Bw.Blocks Bw.Diff Bw.Val Bw.Pipe
@@ -141,6 +142,13 @@ def handle (j : Json) : Json :=
     match Lookup.lookup extra (strD j "path") with
     | some p => Json.str p
     | none => Json.null
+  | .ok "glob" =>
+    let gs := (strList j "globs").map String.toList
+    let is := (strList j "ignores").map String.toList
+    let p := strD j "path"
+    match Bw.Glob.anyMatch gs p, Bw.Glob.anyMatch is p with
+    | some a, some i => Json.mkObj [("allow", a), ("ignore", i)]
+    | _, _ => Json.mkObj [("outside", true)]
   | .ok "linediff" =>
     Json.arr ((lineDiffOps (strD j "new") ((arr j "ops").filterMap opOf) none []).map (fun r => Json.arr #[r.1, r.2])).toArray
   | _ => Json.mkObj [("r", "bad-op")]
